@@ -652,7 +652,8 @@ def call_builtin(interp, name, args, kwargs, lineno, fr):
     if name == 'set' and not args:
         return set()
     if name == 'deepcopy':
-        return deep_copy(args[0], {})
+        m = args[1] if len(args) > 1 else kwargs.get('memo')
+        return deep_copy(args[0], m if isinstance(m, dict) else {})
     if name == 'csr_array':
         return csr_array(interp, args, kwargs, lineno)
     if name == 'spsolve':
@@ -761,25 +762,36 @@ def _issub(sm, a, b):
 
 
 def deep_copy(x, memo):
+    """copy.deepcopy.  `memo` maps identities of originals to their copies; a dictionary handed in by the analysed code
+    (deepcopy(x, memo)) is used as python uses it - keyed by id(original), consulted before copying and filled while copying -
+    so a memo that outlives the call (a mutable default argument) hands out the earlier copies again"""
     from .interp import AObj
+
+    def key(o):
+        return Rat.const(id(o))
     if isinstance(x, AObj):
         if x.id in memo:
             return memo[x.id]
+        if key(x) in memo:
+            return memo[key(x)]
         n = AObj(x.cls)
         memo[x.id] = n
+        memo[key(x)] = n
         for k, v in x.attrs.items():
             n.attrs[k] = deep_copy(v, memo)
-        # the mesh is shared by reference in practice?  deepcopy really copies it.
         return n
     if isinstance(x, Box):
         k = ('box', x.id)
         if k in memo:
             return memo[k]
+        if key(x) in memo:
+            return memo[key(x)]
         b = Box(x.cur)
         b.attrs = dict(x.attrs)
         b.attrs.pop('shares', None)
         b.base_zero = x.base_zero
         memo[k] = b
+        memo[key(x)] = b
         return b
     if isinstance(x, View):
         return Box(x.snap())
